@@ -805,10 +805,14 @@ func (c *cluster) startNodeP(n *cnode) { c.startNode(n) }
 //	  arrives afterwards.
 func runVerifyLitmus(rng *rand.Rand, out *bufio.Writer, st *stats, caseNo int) {
 	h := &hist{t0: time.Now(), seenS: map[string]bool{}}
-	variantA := rng.Intn(2) == 0
+	variant := rng.Intn(3) // 0: non-voters (5 servers), 1: held acknowledgement (3), 2: uncommitted demotion (4)
+	variantA := variant == 0
 	nsrv := 3
 	if variantA {
 		nsrv = 5
+	}
+	if variant == 2 {
+		nsrv = 4
 	}
 	c := &cluster{rng: rng, h: h, blocked: map[[2]int]bool{}, holdMs: map[[2]int]int{}, delayMs: 1, litmus: true}
 	_, c.inj = raft.NewInmemTransportWithTimeout("inj", 800*time.Millisecond)
@@ -866,6 +870,32 @@ func runVerifyLitmus(rng *rand.Rand, out *bufio.Writer, st *stats, caseNo int) {
 			}
 			c.apply(c.nodes[1], "v")
 			st.Hist["verify-litmus-nonvoters"]++
+		} else if variant == 2 {
+			// the demotion of 4 reaches 2 and 3 but their answers are lost, so it stays uncommitted on
+			// the leader; then {1,4} | {2,3}: 2 and 3 are a majority of the new voter set
+			c.mu.Lock()
+			c.blocked[[2]int{2, 1}] = true
+			c.blocked[[2]int{3, 1}] = true
+			c.mu.Unlock()
+			four := sidOf(4)
+			c.callWith(l, "m", func(r *raft.Raft) error { return r.DemoteVoter(four, 0, 20*time.Millisecond).Error() })
+			time.Sleep(40 * time.Millisecond)
+			c.mu.Lock()
+			for _, a := range []int{1, 4} {
+				for _, b := range []int{2, 3} {
+					c.blocked[[2]int{a, b}] = true
+					c.blocked[[2]int{b, a}] = true
+				}
+			}
+			c.mu.Unlock()
+			time.Sleep(time.Duration(150+rng.Intn(120)) * time.Millisecond)
+			for k := 2; k <= 3; k++ {
+				if c.nodes[k].r.State() == raft.Leader {
+					c.apply(c.nodes[k], "a")
+				}
+			}
+			c.apply(c.nodes[1], "v")
+			st.Hist["verify-litmus-uncommitted-demotion"]++
 		} else {
 			// hold every answer travelling from 2 to 1 for a while, then cut 1 off (requests only)
 			hold := 200 + rng.Intn(150)
